@@ -259,3 +259,79 @@ func ruleC07(p *Prog, r *Res) {
 		}
 	}
 }
+
+// ---- C07-e: AddIndex refuses a file only for capacity ----
+
+func init() {
+	register("C07",
+		"C07-e (AST, typed, one level of callee inlining): Merge offers every input file to its writers in turn and opens a further writer when all refuse; a refusal (`return false, nil` from Writer.AddIndex) therefore moves the file into a LATER output file, which sits above the earlier ones in the stack. That is only harmless when nothing of the file was kept, and only necessary when a table of the output is full: every refusal in AddIndex is nested in a condition that compares against a math.Max* capacity constant (directly or in a called helper). A refusal for any other reason reorders stream versions, so an outdated version can win.",
+		ruleC07Refusal)
+}
+
+func ruleC07Refusal(p *Prog, r *Res) {
+	const rule = "C07-e refusal-only-for-capacity"
+	r.Rule(rule + ": every `return false, nil` of Writer.AddIndex is guarded by a capacity (math.Max*) comparison")
+	f := p.Fn("index.Writer.AddIndex")
+	if f == nil {
+		return
+	}
+	info := f.Pkg.TypesInfo
+	var mentionsCap func(pk *Fn, e ast.Node, depth int) bool
+	mentionsCap = func(owner *Fn, e ast.Node, depth int) bool {
+		found := false
+		ast.Inspect(e, func(x ast.Node) bool {
+			if found {
+				return false
+			}
+			switch y := x.(type) {
+			case *ast.SelectorExpr:
+				if c, ok := owner.Pkg.TypesInfo.Uses[y.Sel].(*types.Const); ok && c.Pkg() != nil && c.Pkg().Path() == "math" && strings.HasPrefix(c.Name(), "Max") {
+					found = true
+				}
+			case *ast.CallExpr:
+				if depth > 0 {
+					if fn := p.Callee(owner.Pkg, y); fn != nil {
+						if g := p.FnOfObj(fn); g != nil && g.Body() != nil && mentionsCap(g, g.Body(), depth-1) {
+							found = true
+						}
+					}
+				}
+			}
+			return !found
+		})
+		return found
+	}
+	n := 0
+	inspectParents(f.Body(), func(x ast.Node, parents []ast.Node) bool {
+		ret, ok := x.(*ast.ReturnStmt)
+		if !ok || len(ret.Results) != 2 {
+			return true
+		}
+		tv, ok := info.Types[ret.Results[0]]
+		if !ok || tv.Value == nil || tv.Value.ExactString() != "false" {
+			return true
+		}
+		if id, ok := ast.Unparen(ret.Results[1]).(*ast.Ident); !ok || id.Name != "nil" {
+			return true
+		}
+		n++
+		key := fmt.Sprintf("%s refusal#%d", f.Key(), n)
+		guarded := false
+		for i, par := range parents {
+			is, ok := par.(*ast.IfStmt)
+			if !ok {
+				continue
+			}
+			var child ast.Node = x
+			if i+1 < len(parents) {
+				child = parents[i+1]
+			}
+			if child == ast.Node(is.Body) && mentionsCap(f, is.Cond, 1) {
+				guarded = true
+			}
+		}
+		r.Check(guarded, rule, key, p.Pos(ret), "inside a capacity check against math.Max*", "AddIndex refuses the file although no table is full: Merge then copies the whole file into a later output, above files holding newer versions of its streams — after the merge an outdated version is served")
+		return true
+	})
+	r.Floor(rule, 3, n)
+}
